@@ -11,9 +11,11 @@
 package main
 
 import (
+	"bytes"
 	"fmt"
 	"math/rand"
 	"os"
+	"runtime"
 	"strconv"
 	"strings"
 
@@ -56,6 +58,7 @@ func main() {
 	}
 	L = wire.LoadLayout(os.Args[2])
 	wire.RegisterPrivate()
+	runtime.GOMAXPROCS(1) // sequences of packings on one goroutine, one P: a pooled object comes back to the next call (not relied on: repeated)
 	switch os.Args[1] {
 	case "replay":
 		replay(os.Args[3], os.Args[4])
@@ -110,41 +113,151 @@ func respell(m *dns.Msg, idx []int) {
 	}
 }
 
-// packBoth packs m with Compress on and off and walks both results.
-func packBoth(m *dns.Msg, e *event, sum *hx.Summary, c interface{}) bool {
-	var bc, bu []byte
-	var ec, eu error
+// poison derives from m a message that CANNOT be packed and fails late: the same records in reverse order under a longer
+// question name (so every shared name lies at another offset), followed by a record the wire format refuses.  Packing it
+// with Compress = true right before m, on the same goroutine, leaves no trace in a correct packer.
+var poisonKinds = []string{"label64", "name256", "txt256", "rcode"}
+
+func poison(m *dns.Msg, kind string) *dns.Msg {
+	p := new(dns.Msg)
+	p.MsgHdr = m.MsgHdr
+	p.Compress = true
+	for _, q := range m.Question {
+		qq := q
+		if len(q.Name) < 200 {
+			qq.Name = "poisoned-by-an-earlier-message." + strings.TrimPrefix(q.Name, ".")
+			if q.Name == "." {
+				qq.Name = "poisoned-by-an-earlier-message."
+			}
+		}
+		p.Question = append(p.Question, qq)
+	}
+	rev := func(rs []dns.RR) []dns.RR {
+		var out []dns.RR
+		for i := len(rs) - 1; i >= 0; i-- {
+			if rs[i] != nil {
+				out = append(out, dns.Copy(rs[i]))
+			}
+		}
+		return out
+	}
+	p.Answer, p.Ns, p.Extra = rev(m.Extra), rev(m.Answer), rev(m.Ns)
+	base := "example.org."
+	if len(m.Question) > 0 && len(m.Question[0].Name) < 100 {
+		base = m.Question[0].Name
+	}
+	under := func(l string) string {
+		if base == "." {
+			return l + "."
+		}
+		return l + "." + base
+	}
+	switch kind {
+	case "label64":
+		p.Extra = append(p.Extra, &dns.A{Hdr: dns.RR_Header{Name: under(strings.Repeat("a", 64)), Rrtype: dns.TypeA, Class: 1}, A: []byte{192, 0, 2, 1}})
+	case "name256":
+		l := strings.Repeat("b", 63)
+		p.Extra = append(p.Extra, &dns.NS{Hdr: dns.RR_Header{Name: base, Rrtype: dns.TypeNS, Class: 1}, Ns: l + "." + l + "." + l + "." + l + ".x."})
+	case "txt256":
+		p.Extra = append(p.Extra, &dns.TXT{Hdr: dns.RR_Header{Name: base, Rrtype: dns.TypeTXT, Class: 1}, Txt: []string{strings.Repeat("t", 300)}})
+	case "rcode":
+		p.Rcode = 16 // extended RCODE without an OPT record
+		var keep []dns.RR
+		for _, rr := range p.Extra {
+			if rr.Header().Rrtype != dns.TypeOPT {
+				keep = append(keep, rr)
+			}
+		}
+		p.Extra = keep
+		var k2, k3 []dns.RR
+		for _, rr := range p.Answer {
+			if rr.Header().Rrtype != dns.TypeOPT {
+				k2 = append(k2, rr)
+			}
+		}
+		for _, rr := range p.Ns {
+			if rr.Header().Rrtype != dns.TypeOPT {
+				k3 = append(k3, rr)
+			}
+		}
+		p.Answer, p.Ns = k2, k3
+	}
+	return p
+}
+
+var poisonStats = map[string]int{}
+
+// packBoth packs m with Compress on and off and walks both results.  Each packing with compression is preceded, on the same
+// goroutine, by the packing of an unpackable relative of m (poison): a sequence, repeated with every kind of failure.  Every
+// DISTINCT compressed form seen is returned as its own event (a correct packer gives one).
+func packBoth(m *dns.Msg, e *event, sum *hx.Summary, c interface{}) []event {
+	var bu []byte
+	var eu error
+	var forms [][]byte
+	var ec error
 	if p := hx.Catch(func() {
-		m.Compress = true
-		bc, ec = m.Pack()
 		m.Compress = false
 		bu, eu = m.Pack()
+		for round := 0; round < 2; round++ {
+			for _, kind := range poisonKinds {
+				if _, perr := poison(m, kind).Pack(); perr == nil {
+					poisonStats["packed:"+kind]++
+				} else {
+					poisonStats["failed:"+kind]++
+				}
+				m.Compress = true
+				var bc []byte
+				bc, ec = m.Pack()
+				m.Compress = false
+				if ec != nil {
+					return
+				}
+				dup := false
+				for _, f := range forms {
+					if bytes.Equal(f, bc) {
+						dup = true
+					}
+				}
+				if !dup {
+					forms = append(forms, bc)
+				}
+			}
+		}
 	}); p != "" {
 		sum.Mis("compress/panic:"+e.Key, "Pack panicked: "+p, c)
-		return false
+		return nil
 	}
 	if eu != nil { // not this property's business (C01 / C08 report what cannot be packed)
 		sum.Note("unpackable_skipped", fmt.Sprintf("%v", eu))
-		return false
+		return nil
+	}
+	if !e.HasMsg { // a zoo message is re-executed from its own uncompressed octets
+		c = map[string]interface{}{"event": map[string]interface{}{"g": e.G, "v": e.V, "key": e.Key, "hasmsg": false, "bytesU": hx.FromBytes(bu)}}
 	}
 	if ec != nil {
 		sum.Mis("compress/pack-error:"+e.Key, fmt.Sprintf("Pack() with Compress = true fails (%v) on a message that packs without compression", ec), c)
-		return false
+		return nil
 	}
-	e.BytesC, e.BytesU = hx.FromBytes(bc), hx.FromBytes(bu)
-	var err error
-	if e.Su, err = walker.Walk(L, bu); err != nil {
+	su, err := walker.Walk(L, bu)
+	if err != nil {
 		// the uncompressed octets do not follow the RFC layout: a wire-format matter (C01), the walker cannot serve
 		sum.Note("unwalkable_uncompressed", fmt.Sprintf("%s: %v", e.Key, err))
-		e.Su = nil
+		return nil
 	}
-	if e.Sc, err = walker.Walk(L, bc); err != nil {
-		if e.Su != nil {
+	var out []event
+	for _, bc := range forms {
+		ne := *e
+		ne.BytesC, ne.BytesU, ne.Su = hx.FromBytes(bc), hx.FromBytes(bu), su
+		if ne.Sc, err = walker.Walk(L, bc); err != nil {
 			sum.Mis("compress/compressed-unreadable:"+e.Key, fmt.Sprintf("the octets packed with Compress = true cannot be read by an independent reader: %v", err), c)
+			continue
 		}
-		return false
+		out = append(out, ne)
 	}
-	return e.Su != nil
+	if len(forms) > 1 {
+		sum.Note("compressed_forms_differ_between_packings", e.Key)
+	}
+	return out
 }
 
 func typesKey(m *dns.Msg) string {
@@ -165,7 +278,7 @@ func typesKey(m *dns.Msg) string {
 	return strings.Join(ks, "+")
 }
 
-func observeVec(v *vec, sum *hx.Summary) (event, bool) {
+func observeVec(v *vec, sum *hx.Summary) []event {
 	e := event{G: v.G, V: v.V, Ddd: v.Ddd, HasMsg: true, Msg: &v.Msg, Implen: v.Implen}
 	if e.Ddd == nil {
 		e.Ddd = []int{}
@@ -176,8 +289,7 @@ func observeVec(v *vec, sum *hx.Summary) (event, bool) {
 	}
 	respell(m, v.Ddd)
 	e.Key = typesKey(m)
-	ok := packBoth(m, &e, sum, v)
-	return e, ok
+	return packBoth(m, &e, sum, v)
 }
 
 func replay(vectors, out string) {
@@ -187,8 +299,7 @@ func replay(vectors, out string) {
 	implDev := 0
 	hx.ReadNDJSON(vectors, func(i int, v *vec) {
 		sum.Evaluations++
-		e, ok := observeVec(v, &sum)
-		if ok {
+		for _, e := range observeVec(v, &sum) {
 			w.Emit(e)
 			if len(e.BytesC) < len(e.BytesU) {
 				sum.Nontrivial++
@@ -208,6 +319,7 @@ func replay(vectors, out string) {
 		}
 	})
 	sum.Note("packimpl_deviations", implDev)
+	sum.Note("poison_packings", poisonStats)
 	sum.Note("events", w.N)
 	sum.Print()
 }
@@ -300,22 +412,22 @@ func record(out string, n int, big bool) {
 		sum.Evaluations++
 		m := randomMsg(r, pools, big)
 		e := event{G: "zoo", V: []int{i}, Ddd: []int{}, Key: typesKey(m), Implen: -1}
-		if !packBoth(m, &e, &sum, map[string]interface{}{"zoo": i, "seed": hx.Seed(), "big": big}) {
-			continue
-		}
-		if len(e.BytesC) > 16384 {
-			crossed++
-		}
-		if len(e.BytesC) < len(e.BytesU) {
-			sum.Nontrivial++
-		}
-		w.Emit(e)
-		if i < 2 && len(e.BytesC) < 300 {
-			sum.Sample(map[string]interface{}{"bytesC": e.BytesC, "bytesU": e.BytesU})
+		for _, e := range packBoth(m, &e, &sum, nil) {
+			if len(e.BytesC) > 16384 {
+				crossed++
+			}
+			if len(e.BytesC) < len(e.BytesU) {
+				sum.Nontrivial++
+			}
+			w.Emit(e)
+			if i < 2 && len(e.BytesC) < 300 {
+				sum.Sample(map[string]interface{}{"bytesC": e.BytesC, "bytesU": e.BytesU})
+			}
 		}
 	}
 	sum.Note("events", w.N)
 	sum.Note("compressed_beyond_16384", crossed)
+	sum.Note("poison_packings", poisonStats)
 	sum.Print()
 }
 
@@ -329,7 +441,7 @@ func reexec(in, out string) {
 		sum.Evaluations++
 		if e.HasMsg && e.Msg != nil {
 			v := &vec{G: e.G, V: e.V, Msg: *e.Msg, Ddd: e.Ddd, Implen: e.Implen}
-			if ne, ok := observeVec(v, &sum); ok {
+			for _, ne := range observeVec(v, &sum) {
 				w.Emit(ne)
 			}
 			return
@@ -339,8 +451,8 @@ func reexec(in, out string) {
 			hx.Die("event %d: own uncompressed octets do not unpack: %v", i, err)
 		}
 		ne := event{G: e.G, V: e.V, Ddd: []int{}, Key: e.Key, Implen: -1}
-		if packBoth(m, &ne, &sum, e) {
-			w.Emit(ne)
+		for _, x := range packBoth(m, &ne, &sum, nil) {
+			w.Emit(x)
 		}
 	})
 	sum.Note("events", w.N)
